@@ -428,7 +428,7 @@ func TestC11(t *testing.T) {
 	if run.Counter("pairs_skipped") > 0 {
 		run.NotExhaustive(fmt.Sprintf("%d fault pairs skipped at the deadline", run.Counter("pairs_skipped")))
 	}
-	run.Cov["evaluations"] = run.Counter("fault_runs")
+	run.Cov["evaluations"] = run.Counter("fault_runs") + run.Counter("persistent_instance_runs")
 	run.Cov["api_calls_in_failure_free_runs"] = totalCalls
 	run.Sample(c11Fault{"R_ers(ns/foo-8a9e59)", 1, "create Pod ns/", 0, "lost"})
 	run.Assumptions = []string{"a fault addresses a call by (step, verb/kind/name, occurrence), never by arrival order; a stop inside a parallel batch fails the batch members that sort after the target",
